@@ -293,6 +293,14 @@ func constraintSrc(c string, r *renderer) string {
 		return "LocalKey"
 	case c == "markerunion":
 		return "interface{ LocalMarker; ~int64 }"
+	case c == "srcunion":
+		return "LocalQty | int64"
+	case c == "srcapprox":
+		return "~[]LocalT"
+	case strings.HasPrefix(c, "depunion:"):
+		var p int
+		fmt.Sscanf(c, "depunion:%d", &p)
+		return "interface{ " + r.qual(p) + "U | ~string }"
 	case strings.HasPrefix(c, "pkgnum:"):
 		var p int
 		fmt.Sscanf(c, "pkgnum:%d", &p)
@@ -317,7 +325,7 @@ func (s *SrcPkg) Files() map[string]string {
 	files := map[string]string{}
 	var main strings.Builder
 	fmt.Fprintf(&main, "package %s\n\n", s.Name)
-	main.WriteString("type LocalT struct{ V int }\n\ntype LocalC interface{ Len() int }\n\ntype LocalMarker interface{}\n\ntype headers = map[string][]string\n\ntype LocalKey interface {\n\tcomparable\n\t~int | ~string\n}\n\n")
+	main.WriteString("type LocalT struct{ V int }\n\ntype LocalC interface{ Len() int }\n\ntype LocalMarker interface{}\n\ntype LocalQty int\n\ntype headers = map[string][]string\n\ntype LocalKey interface {\n\tcomparable\n\t~int | ~string\n}\n\n")
 	main.WriteString(s.Extra)
 	n := 0
 	for _, it := range s.Ifaces {
@@ -380,6 +388,23 @@ type Num interface{ ~int | ~int64 }
 type Key interface {
 	comparable
 	~uint64 | ~string
+}
+
+// names that de-capitalise to keywords
+type Var struct{ N int }
+
+type Type int
+
+type Go struct{}
+
+type Range []int
+
+type Func func()
+
+// methods whose names do not start with an ASCII letter
+type Unicode interface {
+	Ärger(n int) error
+	Überhol(v T) U
 }
 
 // a generic interface, for embedding instantiated from other packages
